@@ -19,6 +19,23 @@ Contract clauses evaluated on every case
   L2 distinct     distinct select-list expressions get distinct result names; distinct binds get distinct names
   L3 determinism  two compilations give the same SQL text
 
+Select lists with colliding names and repeated entries (`SelectsRows._generate_columns_plus_names`: anonymous `name_N`, table-
+qualified and de-duplicating `name__N` labels).  Scope: ALL select lists of length 1..4 (thorough: 1..5) over a pool of elements
+that collide in every way the function distinguishes — two tables' columns of one name (a.id, b.id, a_b.id), columns whose
+table-qualified labels coincide (a.b_id / a_b.id), an annotated copy of a column (same hash), anonymous expressions (a.x + 1,
+a.id + 1, foo(a.x)), a wrapped column (CAST(a.x)), a user-spelled label equal to a column name — every element may occur any
+number of times at any position; x the three label styles (DISAMBIGUATE_ONLY, TABLENAME_PLUS_COL, NONE) x {short names on the
+default dialect, 11..14-character names with label_length=10 so that every generated label is also truncated}.  Clauses, on
+`compiled._result_columns` of the real compilation:
+  S0 compiles     the statement compiles
+  S1 bound        a generated label (rendered name != the element's own name / table-qualified name / user label) has
+                  len <= label_length
+  S2 distinct     a generated label is not the name of any other entry of the same columns clause (LABEL_STYLE_NONE does not
+                  de-duplicate: there another occurrence of the very same element may repeat its anonymous label); under the two
+                  label-generating styles two entries may share a name only if neither name is generated and one of them is
+                  a label the user spelled out
+  S3 determinism  the same select list built from a second, independently built pool compiles to the same SQL text
+
 `bounded(run, tier, seed)` appends ONE block to run.coverage["bounded"] and reports through `run`.
 """
 import hashlib
@@ -262,7 +279,114 @@ def eval_label(case):
     return n, fails, names
 
 
+# ------------------------------------------------------------------------------------------------ select lists (name collisions / repeats)
+SEL_STYLES = ("dis", "tq", "none")
+SEL_CONFIGS = {"short": ("", None), "long": ("l" * 10, 10)}      # name prefix, label_length
+_POOLS = {}
+
+
+def sel_pool(config, rep=0):
+    """element key -> (element, own name, table-qualified name, user-spelled label?); built once per process, `rep` = an
+    independent second build (determinism clause).  The SAME element object is used for every occurrence of a key."""
+    if (config, rep) not in _POOLS:
+        from sqlalchemy import Column, Integer, MetaData, Table, cast, func
+        pfx = SEL_CONFIGS[config][0]
+        m = MetaData()
+        a = Table("a", m, Column(pfx + "id", Integer), Column(pfx + "x", Integer), Column("b_" + pfx + "id", Integer))
+        b = Table("b", m, Column(pfx + "id", Integer))
+        ab = Table("a_b", m, Column(pfx + "id", Integer))
+        aid, ax, abid = a.c[pfx + "id"], a.c[pfx + "x"], a.c["b_" + pfx + "id"]
+        _POOLS[(config, rep)] = {
+            "a.id": (aid, pfx + "id", "a_" + pfx + "id", False),
+            "b.id": (b.c[pfx + "id"], pfx + "id", "b_" + pfx + "id", False),
+            "a.x": (ax, pfx + "x", "a_" + pfx + "x", False),
+            "a.b_id": (abid, "b_" + pfx + "id", "a_b_" + pfx + "id", False),
+            "a_b.id": (ab.c[pfx + "id"], pfx + "id", "a_b_" + pfx + "id", False),
+            "a.x+1": (ax + 1, None, None, False),
+            "a.id+1": (aid + 1, None, None, False),
+            "cast(a.x)": (cast(ax, Integer), pfx + "x", "a_" + pfx + "x", False),
+            "a.x.label(id)": (ax.label(pfx + "id"), pfx + "id", pfx + "id", True),
+            "annot(a.id)": (aid._annotate({"k": 1}), pfx + "id", "a_" + pfx + "id", False),
+            "foo(a.x)": (func.foo(ax), None, None, False),
+        }
+    return _POOLS[(config, rep)]
+
+
+SEL_KEYS = ("a.id", "b.id", "a.x", "a.b_id", "a_b.id", "a.x+1", "a.id+1", "cast(a.x)", "a.x.label(id)", "annot(a.id)", "foo(a.x)")
+SEL_SAME = {"annot(a.id)": "a.id"}          # an annotated column IS the column (same hash): "the very same element"
+
+
+def sel_maxlen(tier):
+    return 4 if tier == "quick" else 5
+
+
+def sellist_cases(tier):
+    """generator (the thorough tier has ~10**6 select lists)"""
+    import itertools
+    for config in SEL_CONFIGS:
+        for style in SEL_STYLES:
+            for L in range(1, sel_maxlen(tier) + 1):
+                for seq in itertools.product(SEL_KEYS, repeat=L):
+                    yield dict(kind="sellist", config=config, style=style, cols=list(seq))
+
+
+def n_sellist(tier):
+    return len(SEL_CONFIGS) * len(SEL_STYLES) * sum(len(SEL_KEYS) ** L for L in range(1, sel_maxlen(tier) + 1))
+
+
+def eval_sellist(case):
+    from sqlalchemy import select
+    from sqlalchemy.sql import LABEL_STYLE_DISAMBIGUATE_ONLY, LABEL_STYLE_NONE, LABEL_STYLE_TABLENAME_PLUS_COL
+    style = {"dis": LABEL_STYLE_DISAMBIGUATE_ONLY, "tq": LABEL_STYLE_TABLENAME_PLUS_COL, "none": LABEL_STYLE_NONE}[case["style"]]
+    seq = case["cols"]
+    fails, n, texts, comp = [], 0, [], None
+    for rep in range(2):
+        pool = sel_pool(case["config"], rep)
+        d = _dialect("default", None, SEL_CONFIGS[case["config"]][1])
+        stmt = select(*[pool[k][0] for k in seq]).set_label_style(style)
+        try:
+            with warnings.catch_warnings():
+                warnings.simplefilter("ignore")
+                c = stmt.compile(dialect=d)
+                texts.append(str(c))
+        except C.DOCUMENTED as e:
+            return 1, [("S0_compiles", "%s: %s" % (type(e).__name__, str(e)[:200]), None)], [], 0
+        comp = comp or c
+    pool = sel_pool(case["config"], 0)
+    eff = comp.dialect.label_length or comp.dialect.max_identifier_length
+    names = [str(rc.keyname) for rc in comp._result_columns]
+    n += 1
+    if len(names) != len(seq):
+        return n, [("S2_distinct", "%d entries in the columns clause but %d result columns %r" % (len(seq), len(names), names), None)], names, 0
+    own = [pool[k][2 if case["style"] == "tq" else 1] for k in seq]
+    user = [pool[k][3] for k in seq]
+    gen = [names[i] != own[i] for i in range(len(seq))]
+    ident = [SEL_SAME.get(k, k) for k in seq]
+    for i in range(len(seq)):
+        if gen[i]:
+            n += 1
+            if len(names[i]) > eff:
+                fails.append(("S1_bound", "generated label %r of entry %d (%s) has %d characters, limit %d" % (names[i], i, seq[i], len(names[i]), eff), None))
+        for j in range(i + 1, len(seq)):
+            n += 1
+            if names[i] != names[j]:
+                continue
+            if case["style"] == "none":
+                ok = ident[i] == ident[j] or not (gen[i] or gen[j])
+            else:
+                ok = not gen[i] and not gen[j] and (user[i] or user[j])
+            if not ok:
+                fails.append(("S2_distinct", "entries %d (%s) and %d (%s) of one columns clause share the result name %r: %s" % (i, seq[i], j, seq[j], names[i], texts[0][:200]), [seq[i], seq[j]]))
+    n += 1
+    if texts[0] != texts[1]:
+        fails.append(("S3_determinism", "two builds differ: %r vs %r" % (texts[0][:200], texts[1][:200]), None))
+    return n, fails, names, sum(gen)
+
+
 def evaluate(case):
+    if case["kind"] == "sellist":
+        n, fails, names, _ = eval_sellist(case)
+        return n, [f[:2] for f in fails], names
     return eval_naming(case) if case["kind"] == "naming" else eval_label(case)
 
 
@@ -271,11 +395,25 @@ def _worker(shard, nshards, tier, seed):
     cases = naming_cases(tier) + label_cases(tier)
     if seed:
         random.Random(seed).shuffle(cases)
-    out = dict(evals=0, failures=[], names=set(), truncated=0, ncases=len(cases), samples=[], crashes=[])
-    for i, case in enumerate(cases):
+    import itertools
+    out = dict(evals=0, failures=[], names=set(), truncated=0, ncases=len(cases), nsel=n_sellist(tier), sel_generated=[0, 0, 0], sel_lists=set(), samples=[], crashes=[])
+    for i, case in enumerate(itertools.chain(cases, sellist_cases(tier))):
         if i % nshards != shard:
             continue
         try:
+            if case["kind"] == "sellist":
+                n, fails3, names, ngen = eval_sellist(case)
+                out["evals"] += n
+                out["sel_generated"][min(ngen, 2)] += 1
+                if ngen:
+                    out["sel_lists"].add(hashlib.md5(json.dumps([case["config"], case["style"], names]).encode()).digest()[:8])
+                for nm in names:
+                    out["names"].add(hashlib.md5(("sellist-" + case["config"] + nm).encode()).digest()[:8])
+                for clause, detail, collide in fails3:
+                    out["failures"].append(dict(function="%s:sellist.%s" % (clause, case["style"]), input=dict(case, collide=collide) if collide else case, detail=detail, bounded_module="checks.C21_bounded"))
+                if ngen >= 2 and len(out["samples"]) < 2 and i % 997 == shard:
+                    out["samples"].append(dict(case=case, rendered=names))
+                continue
             n, fails, names = evaluate(case)
         except Exception as e:  # noqa: BLE001
             out["crashes"].append("%s on %s: %s" % (type(e).__name__, json.dumps(case), str(e)[:200]))
@@ -284,10 +422,11 @@ def _worker(shard, nshards, tier, seed):
         for nm in names:
             out["names"].add(hashlib.md5((case["family"] + nm).encode()).digest()[:8])
         for clause, detail in fails:
-            out["failures"].append(dict(function="%s:%s" % (clause, "naming." + case["con"] if case["kind"] == "naming" else "label." + case["shape"]), input=case, detail=detail))
+            out["failures"].append(dict(function="%s:%s" % (clause, "naming." + case["con"] if case["kind"] == "naming" else "label." + case["shape"]), input=case, detail=detail, bounded_module="checks.C21_bounded"))
         if len(out["samples"]) < 1 and names and i % 37 == shard:
             out["samples"].append(dict(case=case, rendered=names[:4]))
     out["names"] = list(out["names"])
+    out["sel_lists"] = list(out["sel_lists"])
     return out
 
 
@@ -295,7 +434,10 @@ def bounded(run, tier, seed):
     res = C.shard_run(_worker, 32, (tier, seed))
     names, failures, samples, crashes = set(), [], [], []
     evals = 0
+    sel_gen, sel_lists = [0, 0, 0], set()
     for r in res:
+        sel_gen = [x + y for x, y in zip(sel_gen, r["sel_generated"])]
+        sel_lists.update(r["sel_lists"])
         names.update(r["names"])
         failures += r["failures"]
         samples += r["samples"]
@@ -314,12 +456,17 @@ def bounded(run, tier, seed):
         scope="naming conventions: %d dialect families %s with their own max_identifier_length / max_index_name_length / max_constraint_name_length and user max_identifier_length in %s; "
               "templates %s; table-name lengths placing the generated name from well below to above each limit; two sibling names per table; explicit names at max-1, max, max+1. "
               "labels / binds: label_length in {None, 6, 7, 10, 30}, max_identifier_length in {dialect, 8, 12, 30}; label lengths around the effective limit; shapes {3 long labels + anonymous, "
-              "tablename_plus_col over a subquery with a long name, binds from long column names, 20 labels + 20 binds sharing a long prefix}; %d cases"
-              % (len(FAMILIES), list(FAMILIES), list(USER_MAX), json.dumps(TEMPLATES), res[0]["ncases"]),
+              "tablename_plus_col over a subquery with a long name, binds from long column names, 20 labels + 20 binds sharing a long prefix}; %d cases. "
+              "select lists (label de-duplication, _generate_columns_plus_names): ALL sequences of length 1..%d over the %d elements %s (same element object for every occurrence of a key; "
+              "annot(a.id) = annotated copy of a.id) x label styles %s x %s (name prefix, label_length); %d select lists"
+              % (len(FAMILIES), list(FAMILIES), list(USER_MAX), json.dumps(TEMPLATES), res[0]["ncases"], sel_maxlen(tier), len(SEL_KEYS), list(SEL_KEYS), list(SEL_STYLES),
+                 json.dumps(SEL_CONFIGS), res[0]["nsel"]),
         evaluations=evals,
         distinct_nontrivial=len(names),
-        rule="every case builds the construct twice from its descriptor and evaluates N1-N4 / L1-L3 on the real preparer / compiler; evaluations = clause evaluations; "
-             "distinct_nontrivial = distinct (family, rendered name) seen, counted by hash",
+        rule="every case builds the construct twice from its descriptor and evaluates N1-N4 / L1-L3 / S0-S3 on the real preparer / compiler; evaluations = clause evaluations; "
+             "distinct_nontrivial = distinct (family, rendered name) seen, counted by hash; select lists: non-trivial = the compiler generated a label for at least one entry",
+        select_lists=dict(cases=res[0]["nsel"], no_generated_label=sel_gen[0], one_generated_label=sel_gen[1], two_or_more_generated_labels=sel_gen[2],
+                          distinct_nontrivial=len(sel_lists), rule="distinct (config, style, rendered names) among the select lists with >= 1 generated label, counted by hash"),
         samples=samples[:3],
         exhaustive=True,
         contract_failures=len(failures),
